@@ -1,6 +1,6 @@
 /-
 Helper lemmas for `Props/C02Big.lean`, section 11: `Markdown.convert` does not raise WITH fenced_code (footnotes, abbr,
-attr_list, toc off; `&`-free source, `tab_length ≥ 1`), and returns a string.
+attr_list, toc off; `tab_length ≥ 1`), and returns a string.
 
 * `dom2_s`, `block_stage_own_s` — a second instance of fc2's block-stage invariant (`Dom2`), with the strings of the tree
   in the class "every STX is followed by `k`, `w` or a complete escape token" (`TokFull.SOk`): a raw-HTML placeholder
@@ -146,7 +146,7 @@ theorem nodeS_of_xinv {n : Node} (h : BlkX.XInv Blk.okc Blk.okc NoCtlXF.XT.Ts n)
 
 /-- the tree and the log of the block stage with fenced_code (no footnotes): in the domain of the STX-token invariant -/
 theorem blockStageX_tokF {x : Exts} {cfg : Cfg} {src : Str} (hf : x.fencedCode = true) (hfn : x.footnotes = false)
-    (ha : '&' ∉ src) (htab : 0 < cfg.tab) {root : Node} {log : Block.Refs} {stash : List Str}
+    (htab : 0 < cfg.tab) {root : Node} {log : Block.Refs} {stash : List Str}
     (h : blockStageX x cfg src = .ok (root, log, stash)) :
     root.Forall TokFull.NodeS ∧ BlkX.LogC Blk.okc (Blk.AllC Blk.okc) log := by
   simp only [blockStageX] at h
@@ -154,7 +154,7 @@ theorem blockStageX_tokF {x : Exts} {cfg : Cfg} {src : Str} (hf : x.fencedCode =
   · cases h
   · cases h
   · next text stash' hp =>
-    obtain ⟨hown, _, _⟩ := prepareX_fenced hf ha hp
+    obtain ⟨hown, _, _⟩ := prepareX_fenced hf hp
     split at h
     · cases h
     · next root0 log0 hpd =>
@@ -164,10 +164,10 @@ theorem blockStageX_tokF {x : Exts} {cfg : Cfg} {src : Str} (hf : x.fencedCode =
       obtain ⟨rfl, rfl, rfl⟩ := h
       exact ⟨Node.Forall.mono (fun _ hn => nodeS_of_xinv hn) root0 hroot0, hlog0⟩
 
-/-- **`UnescapeTreeprocessor` does not raise with fenced_code** (footnotes, abbr, attr_list, toc off; `&`-free source,
+/-- **`UnescapeTreeprocessor` does not raise with fenced_code** (footnotes, abbr, attr_list, toc off;
     `tab_length ≥ 1`) -/
 theorem treeXBig_ne_err_fenced {x : Exts} (hf : x.fencedCode = true) (hfn : x.footnotes = false) (hab : x.abbr = false)
-    (hal : x.attrList = false) (htoc : x.toc = false) (cfg : Cfg) (src : Str) (ha : '&' ∉ src) (htab : 0 < cfg.tab) :
+    (hal : x.attrList = false) (htoc : x.toc = false) (cfg : Cfg) (src : Str) (htab : 0 < cfg.tab) :
     treeXBig x cfg src ≠ .err := by
   unfold treeXBig
   cases hb : blockStageX x cfg src with
@@ -175,7 +175,7 @@ theorem treeXBig_ne_err_fenced {x : Exts} (hf : x.fencedCode = true) (hfn : x.fo
   | ood => intro h; cases h
   | ok r =>
     obtain ⟨root, log, stash⟩ := r
-    obtain ⟨hS0, hlog⟩ := blockStageX_tokF hf hfn ha htab hb
+    obtain ⟨hS0, hlog⟩ := blockStageX_tokF hf hfn htab hb
     simp only
     cases hr : runXBig (inlineCfgX x cfg log) root stash with
     | none => intro h; cases h
@@ -218,18 +218,18 @@ theorem convertXBig_err_cases {x : Exts} {cfg : Cfg} {src : Str} (h : convertXBi
 
 /-- **`Markdown.convert` does not raise with fenced_code** -/
 theorem convertXBig_ne_err_fenced {x : Exts} (hf : x.fencedCode = true) (hfn : x.footnotes = false)
-    (hab : x.abbr = false) (hal : x.attrList = false) (htoc : x.toc = false) (cfg : Cfg) (src : Str) (ha : '&' ∉ src)
+    (hab : x.abbr = false) (hal : x.attrList = false) (htoc : x.toc = false) (cfg : Cfg) (src : Str)
     (htab : 0 < cfg.tab) : convertXBig x cfg src ≠ .err := by
   intro h
   rcases convertXBig_err_cases h with ht | ⟨u, html, ht, hs⟩
-  · exact treeXBig_ne_err_fenced hf hfn hab hal htoc cfg src ha htab ht
+  · exact treeXBig_ne_err_fenced hf hfn hab hal htoc cfg src htab ht
   · rw [C14X.topLevelStrip_div _ u (treeXBig_rootDiv hfn hab hal htoc ht)] at hs
     cases hs
 
-/-- **`convertXBig` never answers `oof` with fenced_code, wikilinks on or off** (`&`-free source without `[` before a
-    blank; `tab_length ≥ 1`) -/
+/-- **`convertXBig` never answers `oof` with fenced_code, wikilinks on or off** (source without `[` before a blank;
+    `tab_length ≥ 1`) -/
 theorem convertXBig_ne_oof_fenced_wiki {x : Exts} {cfg : Cfg} (src : Str) (hs : WikiSrc cfg src)
-    (hf : x.fencedCode = true) (ha : '&' ∉ src) (htab : 0 < cfg.tab) : convertXBig x cfg src ≠ .oof := by
+    (hf : x.fencedCode = true) (htab : 0 < cfg.tab) : convertXBig x cfg src ≠ .oof := by
   unfold convertXBig
   split
   · intro h; cases h
@@ -243,7 +243,7 @@ theorem convertXBig_ne_oof_fenced_wiki {x : Exts} {cfg : Cfg} (src : Str) (hs : 
         | ood => intro h; cases h
         | ok r =>
           obtain ⟨root, log, stash⟩ := r
-          obtain ⟨hdeep, hst⟩ := blockStageX_deepF hf ha htab hb
+          obtain ⟨hdeep, hst⟩ := blockStageX_deepF hf htab hb
           have hw := blockStageX_okw hs hb
           obtain ⟨⟨t, xs⟩, hr⟩ := runXBig_total_wiki (x := x) cfg log stash hdeep hw
           have hent := runXBig_html_lt hst hr
@@ -267,18 +267,18 @@ theorem convertXBig_ne_oof_fenced_wiki {x : Exts} {cfg : Cfg} (src : Str) (hs : 
               | some r => intro h; cases h
 
 /-- **C02 with fenced_code: `convertXBig` returns a string** — fenced_code on; tables, admonition, def_list, sane_lists,
-    nl2br, wikilinks on or off; footnotes, abbr, attr_list, toc off; `tab_length ≥ 1`; every source without `<` and `&`
+    nl2br, wikilinks on or off; footnotes, abbr, attr_list, toc off; `tab_length ≥ 1`; every source without `<`
     of the model's domain in whose normalised text, when wikilinks is on, no `[` is immediately followed by a blank -/
 theorem convertXBig_ok_fenced {x : Exts} (hf : x.fencedCode = true) (hfn : x.footnotes = false) (hab : x.abbr = false)
-    (hal : x.attrList = false) (htoc : x.toc = false) (cfg : Cfg) (src : Str) (hlt : '<' ∉ src) (ha : '&' ∉ src)
+    (hal : x.attrList = false) (htoc : x.toc = false) (cfg : Cfg) (src : Str) (hlt : '<' ∉ src)
     (htab : 0 < cfg.tab)
     (hadm : x.admonition = true → admNonAscii (Normalize.normalize cfg.tab src) = false)
     (hw : x.wikilinks = true → WikiSrc cfg src) : ∃ out, convertXBig x cfg src = .ok out := by
   have h1 : convertXBig x cfg src ≠ .oof := by
     cases hwl : x.wikilinks with
-    | true => exact convertXBig_ne_oof_fenced_wiki src (hw hwl) hf ha htab
-    | false => exact convertXBig_ne_oof_fenced src hwl hf ha htab
-  have h2 := convertXBig_ne_err_fenced hf hfn hab hal htoc cfg src ha htab
+    | true => exact convertXBig_ne_oof_fenced_wiki src (hw hwl) hf htab
+    | false => exact convertXBig_ne_oof_fenced src hwl hf htab
+  have h2 := convertXBig_ne_err_fenced hf hfn hab hal htoc cfg src htab
   have h3 := convertXBig_ne_ood hfn hab hal htoc hlt hadm
   cases hc : convertXBig x cfg src with
   | ok out => exact ⟨out, rfl⟩
